@@ -24,6 +24,8 @@ pub enum Mutation {
     /// complement (no final xor), 2 = CRC of the frame without its start sequence, 3 = CRC of the payload
     /// bytes only, 4 = CRC-16/X.25 run without the end sequence, 5 = the right checksum + 1
     CrcLookalike(u8),
+    /// overwrite byte k (0..8) of the frame's start sequence
+    StartByte(u8, u8),
 }
 
 #[derive(Debug, Clone, PartialEq)]
@@ -103,6 +105,10 @@ pub fn mutate_frame(frame: &[u8], m: &Mutation, refix: bool) -> Vec<u8> {
             for i in 0..k {
                 f[end - 1 - i] = 0x1b;
             }
+        }
+        Mutation::StartByte(k, v) => {
+            let k = (*k % 8) as usize;
+            f[k] = if f[k] == *v { v.wrapping_add(1) } else { *v };
         }
         Mutation::CrcLookalike(kind) => {
             let right = crc16_x25(&f[..n - 2]);
@@ -217,6 +223,7 @@ pub fn mutation() -> impl Strategy<Value = Mutation> {
         3 => (0u8..9, 0u8..8).prop_map(|(k, p)| Mutation::ZerosBeforeEnd(k, p)),
         2 => (1u8..4).prop_map(Mutation::TailEsc),
         3 => (0u8..6).prop_map(Mutation::CrcLookalike),
+        3 => (0u8..8, prop_oneof![Just(0x1bu8), Just(0x01), Just(0x00), Just(0xff), any::<u8>()]).prop_map(|(k, v)| Mutation::StartByte(k, v)),
     ]
 }
 
